@@ -113,7 +113,8 @@ FileVariants == { [drop |-> d, bad |-> bd, sizes |-> sz, caps |-> c, algo |-> a,
                       c \in BOOLEAN, a \in {0, 8, 99}, dg \in {Hex64, Hex32, <<>>} }
 Relevant(v) == (v.drop = 0 \/ v.bad = 0) /\ (v.bad = 0 \/ (v.sizes = 32 /\ ~v.caps /\ v.algo = 8 /\ v.digest = Hex64))
                /\ (v.drop = 0 \/ (v.sizes = 32 /\ ~v.caps /\ v.algo = 8 /\ v.digest = Hex64))
-G4e == { [fam |-> "G4", gets |-> TRUE, raw_tags |-> <<>>, payload |-> 0, sig |-> [typed |-> <<>>],
+ImaSig(k) == IF k = 0 THEN <<>> ELSE << [tag |-> 274, type |-> 8, v |-> [i \in 1..k |-> <<48, 51, 48 + i>>]] >>
+G4e == { [fam |-> "G4", gets |-> TRUE, raw_tags |-> <<>>, payload |-> 0, sig |-> [typed |-> ImaSig(IF v.caps THEN nf ELSE 0)],
           hdr |-> [typed |-> FileTags(nf, v)]] : nf \in {1, 2}, v \in {x \in FileVariants : Relevant(x)} }
 
 \* headers with entries appended after the immutable region (rpm's "dribbles"): tags the accessors read,
